@@ -2,6 +2,7 @@ package ply
 
 import (
 	"errors"
+	"io"
 	"strconv"
 )
 
@@ -12,9 +13,15 @@ type listAsciiPropertyReader struct {
 }
 
 func (lpr *listAsciiPropertyReader) Read(line []string) (offset int, err error) {
+	if len(line) == 0 {
+		return -1, io.ErrUnexpectedEOF
+	}
 	v, err := strconv.ParseInt(line[0], 10, 32)
 	if err != nil {
 		return -1, err
+	}
+	if v < 0 || int64(len(line)-1) < v {
+		return -1, io.ErrUnexpectedEOF
 	}
 	lpr.lastReadListSize = int32(v)
 
